@@ -2,7 +2,8 @@
 EXTENDS AsyncService, Json
 CONSTANTS MaxClock, MaxWire, MaxMsgs
 VARIABLES nmsg,
-          badFrom    \* ghost (HTTP): requests whose OWN exchange delivered an unauthenticated or unparsable PDU
+          badFrom,   \* ghost (HTTP): requests whose OWN exchange delivered an unauthenticated or unparsable PDU
+          ran        \* ghost (liveness): run has been called since the clock last advanced
 
 Ids == 1..(Cardinality(Reqs) + 1)           \* one id more than requests: an id nobody owns
 (* requests are submitted in order; the id is the next unused one (the code's ids are replayed from the real run) *)
@@ -17,22 +18,42 @@ RespMsgs == {m \in Msgs : m.k = "resp"}
 Bodies == {<<>>} \cup {<<m>> : m \in Msgs} \cup {<<m1, m2>> : m1 \in RespMsgs, m2 \in {m \in RespMsgs : m.status = 0 /\ m.fits}}
 Outcomes(r) == {[x |-> r, res |-> k, msgs |-> <<>>, junk |-> FALSE] : k \in {"curlerr", "httperr"}}
                \cup {[x |-> r, res |-> "body", msgs |-> b, junk |-> j] : b \in Bodies, j \in BOOLEAN}
-MCInit == Init /\ nmsg = 0 /\ badFrom = {}
+MCInit == Init /\ nmsg = 0 /\ badFrom = {} /\ ran = FALSE
 BadBody(e) == \E i \in DOMAIN e.msgs : e.msgs[i].k \in {"badmac", "garbage"}
-MCNext == \/ (NextReq # 0 /\ Add(NextReq, FreshId) /\ UNCHANGED <<nmsg, badFrom>>)
-          \/ (\E h \in Reqs \cup {0} : Run(h) /\ UNCHANGED <<nmsg, badFrom>>)
-          \/ (\E m \in Msgs : nmsg < MaxMsgs /\ Len(wire) < MaxWire /\ ServerWrites(m) /\ nmsg' = nmsg + 1 /\ UNCHANGED badFrom)
+MCNext == \/ (NextReq # 0 /\ Add(NextReq, FreshId) /\ UNCHANGED <<nmsg, badFrom, ran>>)
+          \/ (\E h \in Reqs \cup {0} : Run(h) /\ UNCHANGED <<nmsg, badFrom, ran>>)
+          \/ (\E m \in Msgs : nmsg < MaxMsgs /\ Len(wire) < MaxWire /\ ServerWrites(m) /\ nmsg' = nmsg + 1 /\ UNCHANGED <<badFrom, ran>>)
           \/ (\E r \in Reqs : \E e \in Outcomes(r) : nmsg < MaxMsgs /\ ExchangeCompletes(e) /\ nmsg' = nmsg + 1
-                                                       /\ badFrom' = IF BadBody(e) THEN badFrom \cup {r} ELSE badFrom)
-          \/ (~Http /\ \E how \in {"closed", "reset"} : PeerEnds(how) /\ UNCHANGED <<nmsg, badFrom>>)
-          \/ (~Http /\ \E m \in {"ready", "notready", "hup", "err"} : SetPoll(m) /\ UNCHANGED <<nmsg, badFrom>>)
-          \/ (~Http /\ \E m \in {"ok", "fail"} : SetOpen(m) /\ UNCHANGED <<nmsg, badFrom>>)
-          \/ (clock < MaxClock /\ Tick(1) /\ UNCHANGED <<nmsg, badFrom>>)
-MCSpec == MCInit /\ [][MCNext]_<<vars, nmsg, badFrom>>
+                                                       /\ badFrom' = (IF BadBody(e) THEN badFrom \cup {r} ELSE badFrom) /\ UNCHANGED ran)
+          \/ (~Http /\ \E how \in {"closed", "reset"} : PeerEnds(how) /\ UNCHANGED <<nmsg, badFrom, ran>>)
+          \/ (~Http /\ \E m \in {"ready", "notready", "noout", "hup", "err"} : SetPoll(m) /\ UNCHANGED <<nmsg, badFrom, ran>>)
+          \/ (~Http /\ \E m \in {"ok", "fail"} : SetOpen(m) /\ UNCHANGED <<nmsg, badFrom, ran>>)
+          \/ (clock < MaxClock /\ Tick(1) /\ UNCHANGED <<nmsg, badFrom, ran>>)
+MCSpec == MCInit /\ [][MCNext]_<<vars, nmsg, badFrom, ran>>
+(* ---- liveness: "a request is never lost" as a temporal property.  Under weak fairness of Run and of the clock, every accepted request is     *)
+(* eventually handed back.  Requests are submitted only while clock <= AddUntil and the clock runs to MaxClock, which must leave room for every *)
+(* timeout to elapse after the last submission (MaxClock >= AddUntil + SndTo + RcvTo + ConTo + 3); beyond MaxClock nothing is left to wait for. *)
+AddUntil == MaxClock - (SndTo + RcvTo + ConTo + 3)
+mcvars == <<vars, nmsg, badFrom, ran>>
+(* assumptions of the liveness claim: the caller calls run at least once between two clock ticks; the environment stops changing after       *)
+(* AddUntil and the poll() system call itself does not fail (pollm = "err" is left out: it is a transient condition)                                             *)
+EnvQuiet == clock <= AddUntil
+LiveNext == \/ (NextReq # 0 /\ EnvQuiet /\ Add(NextReq, FreshId) /\ UNCHANGED <<nmsg, badFrom, ran>>)
+            \/ (\E h \in Reqs \cup {0} : Run(h) /\ ran' = TRUE /\ UNCHANGED <<nmsg, badFrom>>)
+            \/ (~Http /\ EnvQuiet /\ \E m \in Msgs : nmsg < MaxMsgs /\ Len(wire) < MaxWire /\ ServerWrites(m) /\ nmsg' = nmsg + 1 /\ UNCHANGED <<badFrom, ran>>)
+            \/ (EnvQuiet /\ \E r \in Reqs : \E e \in Outcomes(r) : nmsg < MaxMsgs /\ ExchangeCompletes(e) /\ nmsg' = nmsg + 1 /\ UNCHANGED <<badFrom, ran>>)
+            \/ (~Http /\ EnvQuiet /\ \E how \in {"closed", "reset"} : PeerEnds(how) /\ UNCHANGED <<nmsg, badFrom, ran>>)
+            \/ (~Http /\ EnvQuiet /\ \E m \in {"ready", "notready", "noout", "hup"} : SetPoll(m) /\ UNCHANGED <<nmsg, badFrom, ran>>)
+            \/ (~Http /\ EnvQuiet /\ \E m \in {"ok", "fail"} : SetOpen(m) /\ UNCHANGED <<nmsg, badFrom, ran>>)
+            \/ (clock < MaxClock /\ ran /\ Tick(1) /\ ran' = FALSE /\ UNCHANGED <<nmsg, badFrom>>)
+FairSpec == /\ MCInit /\ [][LiveNext]_mcvars
+            /\ WF_mcvars(\E h \in Reqs \cup {0} : Run(h) /\ ran' = TRUE /\ UNCHANGED <<nmsg, badFrom>>)
+            /\ SF_mcvars(clock < MaxClock /\ ran /\ Tick(1) /\ ran' = FALSE /\ UNCHANGED <<nmsg, badFrom>>)
+EventuallyReturned == \A r \in Reqs : (st[r] \in Live) ~> (st[r] = "done")
 (* STRICT: expected to be violated when Http (finding F-C13-4) *)
 StrictOwnExchange == CauseOnOwnExchange(badFrom)
 (* the observation variable does not distinguish states *)
-View == <<st, id, addT, sndT, cause, sigok, sendq, respq, wire, conn, connT, rStart, rCount, peer, pollm, openm, clock, usedIds, ret, arrived, early, xdone, nmsg, badFrom>>
+View == <<st, id, addT, sndT, cause, sigok, sendq, respq, wire, conn, connT, rStart, rCount, peer, pollm, openm, clock, usedIds, ret, arrived, early, xdone, nmsg, badFrom, ran>>
 Dbg1 == ~(st[2] = "resp")
 Dbg3 == ~(st[2] = "sent")
 Dbg4 == ~(st[2] = "queued")
